@@ -1,6 +1,7 @@
 import PedVerif.Lemmas.CheckerEnvs
 import PedVerif.Props.C03
 import PedVerif.Props.C10
+import PedVerif.Props.Callable
 /-!
 # C01 — the type checker is sound: a non-conforming value is never accepted
 
